@@ -6,7 +6,7 @@ from hypothesis import strategies as st
 
 from .. import gen
 from ..common import TOL, graph_from_json, inconclusive, invalid_config, ok, violation
-from ..models import flow_of, run_model, solver_artifact, timed_out
+from ..models import flow_of, rerun_presolve_off, run_model, solver_artifact, timed_out
 from ..oracle import bf
 from ..oracle.routes import check_route, walk_vectors
 
@@ -162,10 +162,22 @@ def run_case(case, tier="quick"):
         if not any(len(cc & s) >= len(cc) * coverage - 1e-9 for s in used_sets):
             return violation("constraint_not_covered", f"constraint {c} (coverage {coverage}) in no single walk of {walks}", labels, facts=facts)
     n = len(walks)
+
+    def presolve_artifact():
+        """HiGHS presolve occasionally reports a feasible walk model infeasible; the minimum search then skips that k.
+        A count that changes with presolve off is a solver artefact, not a statement about the library."""
+        try:
+            r2 = rerun_presolve_off(case, tier)
+            return bool(r2.solved) and len(r2.solution.get("walks") or []) != n
+        except Exception:
+            return False
+
     # (i) planted witness
     planted = meta.get("planted")
     if witness:
         dp = len({tuple(p) for p, _w in planted})
+        if n > dp and presolve_artifact():
+            return inconclusive("solver artefact: number of walks changes with HiGHS presolve off", labels)
         if n > dp:
             return violation("not_minimum_vs_planted", f"returned {n} walks but the planted decomposition has {dp}: {planted}", labels, facts=facts)
     # (ii) exhaustive on tiny inputs (edge mode, int weights)
@@ -177,6 +189,8 @@ def run_case(case, tier="quick"):
         if complete and len(vecs) <= (150 if n <= 3 else 40):
             pred = subset_predicate(vecs, constraints, coverage)
             found, wit = bf.exists_fd_with_at_most(vecs, n - 1, f_req, "int", pred)
+            if found and presolve_artifact():
+                return inconclusive("solver artefact: number of walks changes with HiGHS presolve off", labels)
             if found:
                 sub, ws = wit
                 return violation("not_minimum", f"returned {n} walks {walks}; but {len(sub)} suffice: {[dict(vecs[i]) for i in sub]} weights {ws}", labels, facts=facts)
